@@ -1,6 +1,7 @@
 import KcpVerif.Model.Kcp
 import KcpVerif.Lemmas.KcpFlush
 import KcpVerif.Lemmas.KcpLive
+import KcpVerif.Lemmas.KcpState
 /-! C02 — eventual delivery: a healed network always drains the backlog. -/
 namespace KcpVerif.Props
 open KcpVerif KcpVerif.Gen KcpVerif.Kcp
@@ -281,5 +282,45 @@ theorem C02_heap_top_advances (wnd : Nat) (buf q : List Seg) (nxt : U32) (k : Kc
 /-- non-vacuity: a blocked head (queue full) and a moved head -/
 example : (moveLoop 1 [{ sn := 5 }, { sn := 6 }] [] 5).buf = [{ sn := 6 }] ∧
     (moveLoop 1 [{ sn := 5 }, { sn := 6 }] [] 5).nxt = 6 := by decide
+
+/-! ### `dead_link_only_flag` -/
+
+/-- The dead-link flag `state` is written by phase 5 but read by nothing: changing it in the input
+state changes nothing but `state` in the result of `flush`, `input`, `recv`, `send`, the setters,
+and nothing at all in what they return or send.  (`update` = timer arithmetic + `flush` is not
+covered here.) -/
+theorem C02_dead_link_only_flag (k : Kcp) (v : U32) :
+    (∀ full now,
+      (∃ w, (flush { k with state := v } full now).k = { (flush k full now).k with state := w }) ∧
+      (flush { k with state := v } full now).outs = (flush k full now).outs ∧
+      (flush { k with state := v } full now).interval = (flush k full now).interval ∧
+      (flush { k with state := v } full now).panic = (flush k full now).panic) ∧
+    (∀ data regular ackNoDelay now,
+      (∃ w, (input { k with state := v } data regular ackNoDelay now).k =
+        { (input k data regular ackNoDelay now).k with state := w }) ∧
+      (input { k with state := v } data regular ackNoDelay now).ret = (input k data regular ackNoDelay now).ret ∧
+      (input { k with state := v } data regular ackNoDelay now).outs = (input k data regular ackNoDelay now).outs ∧
+      (input { k with state := v } data regular ackNoDelay now).panic = (input k data regular ackNoDelay now).panic) ∧
+    (∀ buflen,
+      (∃ w, (recv { k with state := v } buflen).k = { (recv k buflen).k with state := w }) ∧
+      (recv { k with state := v } buflen).n = (recv k buflen).n ∧
+      (recv { k with state := v } buflen).data = (recv k buflen).data) ∧
+    (∀ buffer,
+      (∃ w, (send { k with state := v } buffer).k = { (send k buffer).k with state := w }) ∧
+      (send { k with state := v } buffer).ret = (send k buffer).ret ∧
+      (send { k with state := v } buffer).panic = (send k buffer).panic) ∧
+    peekSize { k with state := v } = peekSize k ∧ waitSnd { k with state := v } = waitSnd k ∧
+    (∀ now, check { k with state := v } now = check k now) ∧
+    (∀ m, (∃ w, (setMtu { k with state := v } m).1 = { (setMtu k m).1 with state := w }) ∧
+      (setMtu { k with state := v } m).2 = (setMtu k m).2) ∧
+    (∀ s r, ∃ w, wndSize { k with state := v } s r = { wndSize k s r with state := w }) ∧
+    (∀ nd iv rs nc, ∃ w, noDelay { k with state := v } nd iv rs nc = { noDelay k nd iv rs nc with state := w }) := by
+  have h : KSE { k with state := v } k := ⟨v, rfl⟩
+  exact ⟨fun full now => flush_se h full now, fun data regular ackNoDelay now => input_se h data regular ackNoDelay now,
+    fun n => recv_se h n, fun b => send_se h b, (misc_se h).1, (misc_se h).2.1, (misc_se h).2.2.1,
+    (misc_se h).2.2.2.1, (misc_se h).2.2.2.2.1, (misc_se h).2.2.2.2.2⟩
+
+/-- non-vacuity: `state` IS written — a segment at the dead-link threshold sets it -/
+example : (emit { k := Kcp.new 1 } { xmit := 20 }).k.state = 0xFFFFFFFF#32 := by decide
 
 end KcpVerif.Props
